@@ -559,6 +559,10 @@ def run(P: Program, R: Report, tier: str) -> None:
     describe(R)
     history_shape(P, R)
     registration(P, R, tier)
+    # R02.8 a recorded step can be inverted any number of times: inverse() does not change the recorded action
+    from .c01 import inverse_is_pure
+
+    inverse_is_pure(P, R, "R02.8")
 
 
 def describe(R: Report) -> None:
